@@ -581,11 +581,15 @@ func (i *insertExecutor) autoGeneratePks(execCtx *types.ExecContext, autoColumnN
 			return nil, err
 		}
 
+		// (statement and result are closed before anything else is sent on the connection: the driver refuses
+		// another command while a result is unread)
+		defer stmt.Close()
 		rows, err := stmt.Query(nil)
 		if err != nil {
 			log.Errorf("stmt query: %+v", err)
 			return nil, err
 		}
+		defer rows.Close()
 
 		if len(rows.Columns()) > 0 {
 			// one row: Variable_name, Value
